@@ -85,3 +85,38 @@ package testutil
 //@   ensures [unlinked] forall p proto4.Account :: { ec.pools[p] } (forall i int :: { ec.attached[account][i] } 0 <= i && i < len(ec.attached[account]) ==> ec.attached[account][i] != p) ==> ec.pools[p] == old(ec.pools[p])
 //@   ensures [no-growth] forall p proto4.Account :: { ec.pools[p] } cval(ec.pools[p]) <= cval(old(ec.pools[p]))
 //@   ensures [links] snapshot(ec.attached) == old(snapshot(ec.attached))
+//
+// Credits: balances change only together with a revision of a known contract that has a higher
+// revision number and is signed by both of that contract's keys; a refused credit changes
+// nothing; a credit never lowers a balance and touches only the deposited accounts / pools.
+//@ pred bothSigned(existing types.V2FileContract, revision types.V2FileContract) =
+//@     existing.RenterPublicKey.VerifyHash(consensus.State{}.ContractSigHash(revision), revision.RenterSignature)
+//@     && existing.HostPublicKey.VerifyHash(consensus.State{}.ContractSigHash(revision), revision.HostSignature)
+//@ func (*EphemeralContractor).CreditAccountsWithContract props C15
+//@   nopanic
+//@   requires ec != nil && ec.accounts != nil && ec.contracts != nil
+//@   loop "range deposits"
+//@     invariant [contracts] snapshot(ec.contracts) == old(snapshot(ec.contracts))
+//@     invariant [len] len(balance) == rangeindex + 1 && rangeindex < len(deposits)
+//@     invariant [no-loss] forall a proto4.Account :: { ec.accounts[a] } cval(ec.accounts[a]) >= cval(old(ec.accounts[a]))
+//@     invariant [others] forall a proto4.Account :: { ec.accounts[a] } (forall k int :: { deposits[k] } 0 <= k && k <= rangeindex ==> deposits[k].Account != a) ==> ec.accounts[a] == old(ec.accounts[a])
+//@   ensures [error-no-effect] result1 != nil ==> snapshot(ec.accounts) == old(snapshot(ec.accounts)) && snapshot(ec.contracts) == old(snapshot(ec.contracts))
+//@   ensures [backed] result1 == nil ==> old(contractID in ec.contracts) && revision.RevisionNumber > old(ec.contracts[contractID]).RevisionNumber && bothSigned(old(ec.contracts[contractID]), revision)
+//@   ensures [recorded] result1 == nil ==> ec.contracts[contractID] == revision
+//@   ensures [one-balance-each] result1 == nil ==> len(result0) == len(deposits)
+//@   ensures [no-loss] forall a proto4.Account :: { ec.accounts[a] } cval(ec.accounts[a]) >= cval(old(ec.accounts[a]))
+//@   ensures [others] forall a proto4.Account :: { ec.accounts[a] } (forall k int :: { deposits[k] } 0 <= k && k < len(deposits) ==> deposits[k].Account != a) ==> ec.accounts[a] == old(ec.accounts[a])
+//@ func (*EphemeralContractor).CreditPoolsWithContract props C15
+//@   nopanic
+//@   requires ec != nil && ec.pools != nil && ec.contracts != nil
+//@   loop "range deposits"
+//@     invariant [contracts] snapshot(ec.contracts) == old(snapshot(ec.contracts))
+//@     invariant [len] len(balances) == rangeindex + 1 && rangeindex < len(deposits)
+//@     invariant [no-loss] forall a proto4.Account :: { ec.pools[a] } cval(ec.pools[a]) >= cval(old(ec.pools[a]))
+//@     invariant [others] forall a proto4.Account :: { ec.pools[a] } (forall k int :: { deposits[k] } 0 <= k && k <= rangeindex ==> deposits[k].Account != a) ==> ec.pools[a] == old(ec.pools[a])
+//@   ensures [error-no-effect] result1 != nil ==> snapshot(ec.pools) == old(snapshot(ec.pools)) && snapshot(ec.contracts) == old(snapshot(ec.contracts))
+//@   ensures [backed] result1 == nil ==> old(contractID in ec.contracts) && revision.RevisionNumber > old(ec.contracts[contractID]).RevisionNumber && bothSigned(old(ec.contracts[contractID]), revision)
+//@   ensures [recorded] result1 == nil ==> ec.contracts[contractID] == revision
+//@   ensures [one-balance-each] result1 == nil ==> len(result0) == len(deposits)
+//@   ensures [no-loss] forall a proto4.Account :: { ec.pools[a] } cval(ec.pools[a]) >= cval(old(ec.pools[a]))
+//@   ensures [others] forall a proto4.Account :: { ec.pools[a] } (forall k int :: { deposits[k] } 0 <= k && k < len(deposits) ==> deposits[k].Account != a) ==> ec.pools[a] == old(ec.pools[a])
